@@ -123,6 +123,10 @@ def gen_universe(rng, uid, profile):
         problem["soft"] = [rng.choice(pool) if pool else rng.randrange(len(solvables)) for _ in range(k)]
     u = {"id": uid, "packages": pkgs, "solvables": solvables, "version_sets": vsets, "unions": unions,
          "problem": problem}
+    if rng.random() < profile.get("p_cancel_in_rendering", 0.3):
+        problem["cancel_in_rendering"] = True       # C04: the provider asks for cancellation while the report is built
+    if profile.get("cache_probe"):
+        u["cache_probe"] = True
     if profile.get("async"):
         # C10: completion orders of the outstanding provider requests: oldest first, newest first, two pseudo-random
         u["async_policies"] = [0, 1, 2 + rng.randrange(100), 102 + rng.randrange(100)]
@@ -170,6 +174,8 @@ FAMILIES = {
     # solvable's own package
     "softloop": dict(max_pkg=3, min_pkg=2, max_cand=3, n_req=[1, 1, 2], n_con=[0, 0, 1], n_root_req=[1], n_root_con=[0],
                      soft=True, n_soft=[1, 1, 2], root_first_pkg=True, p_unknown=0.05, p_union=0.1, p_vs_empty=0.02),
+    # C20 (observation): the cache's public query methods on universes with favored candidates and all hint kinds
+    "cache": dict(BASE, cache_probe=True, p_favored=0.5, p_hint_all=0.3, p_hint_some=0.4, max_cand=4),
     # C10: the same problems through an asynchronous provider under four completion orders
     "async": dict(BASE, **{"async": True}),
     "asynchard": dict(max_pkg=8, min_pkg=5, max_cand=3, p_favored=0.1, p_union=0.15, p_vs_empty=0.02, max_vs=4, p_hint_all=0.2,
@@ -782,6 +788,45 @@ def check_async(u, problem, live, runs, stats):
                         label, "candidates of package" if c[0] == 5 else "dependencies of solvable", c[1])})
                     break
                 seen.add(tuple(c))
+    return viol
+
+
+def check_cache(u, c):
+    """C20 by OBSERVATION (no solver involved): the public SolverCache query methods against the universe."""
+    if c is None:
+        return []
+    if "panic" in c:
+        return [{"prop": "C20", "what": "SolverCache query panicked: %s" % c["panic"][:200]}]
+    viol = []
+    sp = Spec(u)
+    for e in c["version_sets"]:
+        v = e["vs"]
+        if e["matching"] != sp.matching(v) or e["non_matching"] != sp.non_matching(v):
+            viol.append({"prop": "C20", "what": "cached matching/non-matching lists of vs%d are %s / %s, filter_candidates gives %s / %s" % (
+                v, e["matching"], e["non_matching"], sp.matching(v), sp.non_matching(v))})
+            break
+        if e["sorted"] != sp.ranked(v):
+            viol.append({"prop": "C20", "what": "sorted candidates of vs%d are %s, expected %s (sort order, favored first)" % (v, e["sorted"], sp.ranked(v))})
+            break
+    for e in c["unions"]:
+        if e["sorted"] != sp.req_ranked({"u": e["u"]}):
+            viol.append({"prop": "C20", "what": "sorted candidates of union %d are %s, expected %s" % (e["u"], e["sorted"], sp.req_ranked({"u": e["u"]}))})
+            break
+    if not c["stable"] or c["provider_calls_on_repeat"] != 0:
+        viol.append({"prop": "C20", "what": "repeated cache queries changed their answer or consulted the provider again (%d calls)" % c["provider_calls_on_repeat"]})
+    hinted = set()
+    for p in u["packages"]:
+        if p["exists"]:
+            hinted |= set(p["cands"]) if p["hint"] == "all" else set(p["hint"]) if isinstance(p["hint"], list) else set()
+    n = len(u["solvables"])
+    exp_before = [s in hinted for s in range(n)]
+    exp_after = [s in hinted or s in c["fetched"] for s in range(n)]
+    if c["avail_before"] != exp_before:
+        viol.append({"prop": "C20", "what": "availability query before any fetch is %s, hinted solvables are %s" % (c["avail_before"], sorted(hinted))})
+    elif c["avail_after"] != exp_after:
+        viol.append({"prop": "C20", "what": "availability query after fetching %s is %s, expected %s" % (c["fetched"], c["avail_after"], exp_after)})
+    if c["dependency_calls"] != len(c["fetched"]):
+        viol.append({"prop": "C20", "what": "dependencies requested %d times for %d solvables" % (c["dependency_calls"], len(c["fetched"]))})
     return viol
 
 
